@@ -117,7 +117,7 @@ func (h *H) modelBytes(name string, r *vh.RNG) []byte {
 func (h *H) hostile() {
 	hostInit()
 	r := h.c.R
-	n := h.c.N(1500, 40000)
+	n := h.c.N(3000, 40000)
 	if h.c.Search {
 		n *= 3
 	}
